@@ -168,16 +168,21 @@ package content
 //@   assigns *
 //@   ensures cs(s) && s.buf == old(s.buf) && s.src == old(s.src)
 
+// recursion through arrays and dictionaries is bounded by maxValueDepth = 10: the variants
+// below decrease at every recursive call (readValueDepth -> readValueDepth / readDictBody ->
+// readValueDepth), so the nesting of calls never exceeds 2 * 11 + 1 frames (C05)
 //@ func (*scanner).readValueDepth (s, depth) (obj, err)
 //@   tags C05 C15
-//@   requires cs(s)
+//@   requires cs(s) && 0 <= depth && depth <= 10
+//@   variant 2 * (11 - depth)
 //@   assigns *
 //@   ensures cs(s) && s.buf == old(s.buf) && s.src == old(s.src)
 //@   loop 1: invariant cs(s) && s.buf == old(s.buf) && s.src == old(s.src)
 
 //@ func (*scanner).readDictBody (s, term, valueDepth) (d, err)
 //@   tags C05 C15
-//@   requires cs(s) && len(term) <= 16
+//@   requires cs(s) && len(term) <= 16 && 0 <= valueDepth && valueDepth <= 10
+//@   variant 2 * (11 - valueDepth) + 1
 //@   assigns *
 //@   ensures cs(s) && s.buf == old(s.buf) && s.src == old(s.src)
 //@   loop 1: invariant cs(s) && s.buf == old(s.buf) && s.src == old(s.src)
